@@ -360,6 +360,10 @@ class CSSStyleSheet(cssutils.stylesheets.StyleSheet):
             # use proper namespace object
             self._namespaces = _Namespaces(parentStyleSheet=self, log=self._log)
             self._cleanNamespaces()
+            # replaced rules are detached
+            for r in oldCssRules:
+                if r not in self._cssRules:
+                    r._parentStyleSheet = None
 
         else:
             # reset
